@@ -405,6 +405,9 @@ impl Primitive {
             (P::Vector(v1), P::Vector(v2)) => {
                 return Ok(v1.0.borrow()[..].eq(v2.0.borrow().as_slice()))
             }
+            // an object is equal to itself only: that is how `[a] == [a]` already compares the
+            // elements, and what `list.index_of(a)` has to find
+            (P::Object(o1), P::Object(o2)) => return Ok(o1 == o2),
             (P::Optional(maybe), yes) | (yes, P::Optional(maybe)) => {
                 if let Some(maybe_unwrapped) = maybe {
                     return maybe_unwrapped.as_ref().equals(yes);
